@@ -16,7 +16,7 @@ RULE = (
     "one case per (program, re-layout) pair: generated programs (all statement kinds) and the repository's sample sources, re-rendered with "
     "random compositions of the listed presentation changes only (blank lines, indentation by spaces/tabs, trailing spaces, full-line and "
     "end-of-line ';' comments, '/* */' comments on their own lines, spaces around operators/commas/inside brackets, letter case of mnemonic, "
-    "size suffix, index registers (outer and inner) and hex digits, moving a run of statements into an .include file, one shared file for a run that stands twice, two files that both include a third) and every single "
+    "size suffix, index registers (outer and inner) and hex digits, moving a run of statements into an .include file, one shared file for a run that stands twice, two files that both include a third, every statement in a file of its own: 40-80 includes in one file) and every single "
     "transformation alone; judged by equality of accept/reject status, write_block sequence, labels and root symbols with the canonical "
     "rendering; distinct by hash of the re-laid-out text; non-trivial = the canonical program is accepted and the text differs"
 )
@@ -87,6 +87,19 @@ def shared_include(prog: list, rng: random.Random, diamond: bool) -> tuple[list,
             lst[:] = twin_lst
             return canonical, prog
     return None
+
+
+def many_includes(prog: list, rng: random.Random) -> tuple[list, list]:
+    """Every top-level statement (after the first *=) moves into a file of its own: a project with one file per routine. The
+    canonical program is padded with data statements so that one file holds 40-80 .include directives."""
+    canonical = copy.deepcopy(prog) + [{"k": "data", "d": "db", "es": [[["num", str(i & 255), i & 255]]]} for i in range(rng.choice([40, 64, 80]))]
+    twin = []
+    for i, st in enumerate(canonical):
+        if i == 0 or st["k"] in ("map", "macro"):
+            twin.append(copy.deepcopy(st))       # .map lines stay in front; a macro definition moves with no one (it must precede its uses either way)
+        else:
+            twin.append({"k": "include", "f": f"part{i:03d}.s", "b": [copy.deepcopy(st)]})
+    return canonical, twin
 
 
 def _children_outside_macros(st: dict) -> list[list]:
@@ -164,9 +177,27 @@ def check_shared(res: Res, p: dict, rng: random.Random, diamond: bool) -> None:
                      "files": {k: bytes(v).hex() for k, v in (p.get("files") or {}).items() if not isinstance(v, str)}, "knobs": [name]})
 
 
+def check_many_includes(res: Res, p: dict, rng: random.Random) -> None:
+    canonical, twin = many_includes(p["prog"], rng)
+    r0, src0, _ = run_ir(dict(p, prog=canonical))
+    src1, files1 = materialise(dict(p, prog=twin))
+    r1 = assemble(src1, files=files1 or None, rom=p.get("rom"))
+    res.case(src1, r0.ok)
+    res.count("knob[include-per-statement]")
+    if sig(r1) != sig(r0):
+        bad = r1 if not r1.ok else r0
+        d = f"accepted={r0.ok} in one file vs accepted={r1.ok} with one file per statement ({bad.err_kind}: {bad.err_text[:160]})" if r0.ok != r1.ok else \
+            "emitted blocks differ" if _coalesce(r0.blocks) != _coalesce(r1.blocks) else "symbol values differ"
+        res.violate("layout:include", f"{sum(1 for st in twin if st['k'] == 'include')} statements moved into one file each changes the result: {d}",
+                    {"p": {k: v for k, v in p.items() if k != "files"}, "src": src0, "relayout_src": src1, "relayout_files": {k: v for k, v in files1.items() if isinstance(v, str)},
+                     "knobs": ["include-per-statement"]})
+
+
 def check_program(res: Res, p: dict, rng: random.Random, relayouts: int) -> None:
     check_shared(res, p, rng, False)
     check_shared(res, p, rng, True)
+    if rng.random() < 0.35:
+        check_many_includes(res, p, rng)
     r0, src0, _ = run_ir(p)
     res.count("programs_accepted" if r0.ok else "programs_rejected")
     for k in KNOBS:
